@@ -40,6 +40,8 @@ structure Endpoint where
   authInProgress : Bool := false
   authComplete : Bool := true
   rekeyDue : Bool := false         -- byte or time limit reached
+  lateArmed : Bool := false        -- the time limit will have passed when the clock is read a SECOND time within one
+                                   -- `send_packet` call (by the nested call that inserts MSG_IGNORE)
   deferred : List Pkt := []
   sendEpoch : Nat := 1
   recvEpoch : Nat := 1
@@ -63,14 +65,33 @@ def emit (e : Endpoint) (p : Pkt) : Endpoint :=
 def sendKexinit (e : Endpoint) : Endpoint :=
   emit { e with kexComplete := false, rekeyDue := false } ⟨MSG_KEXINIT, 0⟩
 
-/-- `send_packet(pkttype, ...)` -/
+/-- the nested `self.send_packet(MSG_IGNORE, String(b''))`: the rekey trigger is evaluated again, and the clock may
+    by now have passed the time limit (`lateArmed`); MSG_IGNORE itself is never deferred and gets no IGNORE -/
+def sendIgnore (e : Endpoint) : Endpoint :=
+  if e.authComplete && e.kexComplete then
+    let e0 := { e with lateArmed := false }
+    let e1 := if e.rekeyDue || e.lateArmed then { sendKexinit e0 with kexinitSent := true } else e0
+    emit e1 ⟨MSG_IGNORE, 0⟩
+  else emit e ⟨MSG_IGNORE, 0⟩
+
+/-- `send_packet(pkttype, ...)`.  After the IGNORE packet has been inserted the code checks whether that nested
+    call started a key exchange and defers the packet if so (repair of F58). -/
 def sendPacket (e : Endpoint) (p : Pkt) : Endpoint :=
   let e1 := if e.authComplete && e.kexComplete && e.rekeyDue
             then { sendKexinit e with kexinitSent := true } else e
   if mustDefer e1 p.type then { e1 with deferred := e1.deferred ++ [p] }
-  else
-    let e2 := if e1.sendEpoch ≠ 0 ∧ p.type > MSG_KEX_LAST then emit e1 ⟨MSG_IGNORE, 0⟩ else e1
-    emit e2 p
+  else if e1.sendEpoch ≠ 0 ∧ p.type > MSG_KEX_LAST then
+    let e2 := sendIgnore e1
+    if e2.kexComplete then emit e2 p else { e2 with deferred := e2.deferred ++ [p] }
+  else emit e1 p
+
+/-- the code before the repair of F58: the packet went out after the nested call whatever that call had done -/
+def sendPacketPreFix (e : Endpoint) (p : Pkt) : Endpoint :=
+  let e1 := if e.authComplete && e.kexComplete && e.rekeyDue
+            then { sendKexinit e with kexinitSent := true } else e
+  if mustDefer e1 p.type then { e1 with deferred := e1.deferred ++ [p] }
+  else if e1.sendEpoch ≠ 0 ∧ p.type > MSG_KEX_LAST then emit (sendIgnore e1) p
+  else emit e1 p
 
 /-- `_send_deferred_packets` -/
 def flushDeferred (e : Endpoint) : Endpoint :=
@@ -111,12 +132,14 @@ def recvPacket (e : Endpoint) (w : Wire) : Endpoint :=
 inductive Ev where
   | submit (p : Pkt)        -- an upper layer calls send_packet
   | limit                   -- the byte/time limit is reached: the next send starts a re-exchange
+  | late                    -- the time limit will pass between the two clock readings of one `send_packet` call
   | recv (w : Wire)         -- the next packet from the peer arrives
   deriving Repr
 
 def step (e : Endpoint) : Ev → Endpoint
   | .submit p => sendPacket e p
   | .limit => { e with rekeyDue := true }
+  | .late => { e with lateArmed := true }
   | .recv w => recvPacket e w
 
 def run (e : Endpoint) (evs : List Ev) : Endpoint := evs.foldl step e
@@ -131,7 +154,7 @@ structure Sys where
   deriving Repr
 
 inductive SysEv where
-  | submitC (p : Pkt) | submitS (p : Pkt) | limitC | limitS
+  | submitC (p : Pkt) | submitS (p : Pkt) | limitC | limitS | lateC | lateS
   | deliverCS               -- next client→server packet arrives
   | deliverSC
   deriving Repr
@@ -141,6 +164,8 @@ def sysStep (y : Sys) : SysEv → Sys
   | .submitS p => { y with s := sendPacket y.s p }
   | .limitC => { y with c := { y.c with rekeyDue := true } }
   | .limitS => { y with s := { y.s with rekeyDue := true } }
+  | .lateC => { y with c := { y.c with lateArmed := true } }
+  | .lateS => { y with s := { y.s with lateArmed := true } }
   | .deliverCS =>
     match y.c.out[y.cDelivered]? with
     | some w => { y with s := recvPacket y.s w, cDelivered := y.cDelivered + 1 }
